@@ -1,0 +1,450 @@
+//! Verification hook: an in-memory object store implementing [`Service`], whose every request
+//! passes through a scheduling point and can be made to fail, with list pages produced lazily in
+//! key order and a controllable clock for creation times.
+//!
+//! Only compiled with `--cfg gothenburgbitfactory_taskchampion_verif`.
+
+use super::iter::AsyncObjectIterator;
+use super::server::CloudServer;
+use super::service::{validate_object_name, ObjectInfo, Service};
+use crate::errors::{Error, Result};
+use crate::server::encryption;
+use crate::server::{
+    AddVersionResult, GetVersionResult, HistorySegment, Server, Snapshot, SnapshotUrgency,
+    VersionId,
+};
+use async_trait::async_trait;
+use std::cell::RefCell;
+use std::collections::{BTreeMap, HashMap, VecDeque};
+use std::future::Future;
+use std::pin::Pin;
+use std::sync::{Arc, Mutex};
+use std::task::{Context, Poll};
+
+/// A fault injected into one object-store request.
+#[derive(Clone, Copy, Debug, PartialEq, Eq)]
+pub enum StoreFault {
+    /// The request fails and the store never sees it.
+    ErrorBefore,
+    /// The store carries the request out, but the client gets an error.
+    ErrorAfter,
+}
+
+/// One request as the store saw it.
+#[derive(Clone, Debug, PartialEq, Eq)]
+pub struct StoreRequest {
+    pub client: usize,
+    pub kind: &'static str,
+    pub name: String,
+    /// `compare_and_swap`: whether the swap happened; `get`: whether the object existed.
+    pub result: bool,
+    pub fault: Option<StoreFault>,
+}
+
+#[derive(Default)]
+struct ClientState {
+    gated: bool,
+    requests: usize,
+    faults: Vec<(usize, StoreFault)>,
+}
+
+struct Shared {
+    objects: BTreeMap<String, (u64, Vec<u8>)>,
+    clock: u64,
+    page_size: usize,
+    log: Vec<StoreRequest>,
+    clients: HashMap<usize, ClientState>,
+}
+
+/// A handle on the shared in-memory object store, for one client.
+#[derive(Clone)]
+pub struct ObjectStore {
+    shared: Arc<Mutex<Shared>>,
+    client: usize,
+}
+
+/// Pending exactly once: the scheduling point in front of every request.
+struct YieldOnce(bool);
+
+impl Future for YieldOnce {
+    type Output = ();
+    fn poll(mut self: Pin<&mut Self>, cx: &mut Context<'_>) -> Poll<()> {
+        if self.0 {
+            Poll::Ready(())
+        } else {
+            self.0 = true;
+            cx.waker().wake_by_ref();
+            Poll::Pending
+        }
+    }
+}
+
+impl ObjectStore {
+    /// A new, empty store; the returned handle belongs to client 0.
+    pub fn new(page_size: usize) -> ObjectStore {
+        ObjectStore {
+            shared: Arc::new(Mutex::new(Shared {
+                objects: BTreeMap::new(),
+                clock: 0,
+                page_size: page_size.max(1),
+                log: Vec::new(),
+                clients: HashMap::new(),
+            })),
+            client: 0,
+        }
+    }
+
+    /// Another client's handle on the same store.
+    pub fn handle(&self, client: usize) -> ObjectStore {
+        ObjectStore {
+            shared: self.shared.clone(),
+            client,
+        }
+    }
+
+    pub fn client(&self) -> usize {
+        self.client
+    }
+
+    /// When gated, every request of this client is pending once before it is carried out.
+    pub fn set_gated(&self, gated: bool) {
+        let mut s = self.shared.lock().unwrap();
+        s.clients.entry(self.client).or_default().gated = gated;
+    }
+
+    /// Reset this client's request counter and plan faults by request index.
+    pub fn arm(&self, faults: Vec<(usize, StoreFault)>) {
+        let mut s = self.shared.lock().unwrap();
+        let c = s.clients.entry(self.client).or_default();
+        c.requests = 0;
+        c.faults = faults;
+    }
+
+    /// Number of requests this client has made since the last `arm`.
+    pub fn requests(&self) -> usize {
+        let s = self.shared.lock().unwrap();
+        s.clients.get(&self.client).map(|c| c.requests).unwrap_or(0)
+    }
+
+    /// Set the clock from which creation times are taken.
+    pub fn set_clock(&self, now: u64) {
+        self.shared.lock().unwrap().clock = now;
+    }
+
+    pub fn set_page_size(&self, page_size: usize) {
+        self.shared.lock().unwrap().page_size = page_size.max(1);
+    }
+
+    pub fn raw_get(&self, name: &str) -> Option<(u64, Vec<u8>)> {
+        self.shared.lock().unwrap().objects.get(name).cloned()
+    }
+
+    pub fn raw_put(&self, name: &str, creation: u64, value: Vec<u8>) {
+        self.shared
+            .lock()
+            .unwrap()
+            .objects
+            .insert(name.to_string(), (creation, value));
+    }
+
+    pub fn raw_del(&self, name: &str) {
+        self.shared.lock().unwrap().objects.remove(name);
+    }
+
+    /// All objects: (name, creation, value), in key order.
+    pub fn raw_list(&self) -> Vec<(String, u64, Vec<u8>)> {
+        let s = self.shared.lock().unwrap();
+        s.objects
+            .iter()
+            .map(|(k, (t, v))| (k.clone(), *t, v.clone()))
+            .collect()
+    }
+
+    pub fn log(&self) -> Vec<StoreRequest> {
+        self.shared.lock().unwrap().log.clone()
+    }
+
+    pub fn clear_log(&self) {
+        self.shared.lock().unwrap().log.clear();
+    }
+
+    /// The scheduling point and fault lookup at the start of every request.
+    async fn enter(&self, kind: &'static str, name: &str) -> Result<Option<StoreFault>> {
+        let gated = {
+            let s = self.shared.lock().unwrap();
+            s.clients
+                .get(&self.client)
+                .map(|c| c.gated)
+                .unwrap_or(false)
+        };
+        if gated {
+            YieldOnce(false).await;
+        }
+        let mut s = self.shared.lock().unwrap();
+        let c = s.clients.entry(self.client).or_default();
+        let idx = c.requests;
+        c.requests += 1;
+        let fault = c.faults.iter().find(|(i, _)| *i == idx).map(|(_, f)| *f);
+        if fault == Some(StoreFault::ErrorBefore) {
+            let client = self.client;
+            s.log.push(StoreRequest {
+                client,
+                kind,
+                name: name.to_string(),
+                result: false,
+                fault,
+            });
+            return Err(Error::Server(format!(
+                "injected fault: {kind} {name} failed before reaching the store"
+            )));
+        }
+        Ok(fault)
+    }
+
+    fn finish<T>(
+        &self,
+        kind: &'static str,
+        name: &str,
+        result: bool,
+        fault: Option<StoreFault>,
+        value: T,
+    ) -> Result<T> {
+        let mut s = self.shared.lock().unwrap();
+        let client = self.client;
+        s.log.push(StoreRequest {
+            client,
+            kind,
+            name: name.to_string(),
+            result,
+            fault,
+        });
+        if fault.is_some() {
+            return Err(Error::Server(format!(
+                "injected fault: reply to {kind} {name} lost"
+            )));
+        }
+        Ok(value)
+    }
+}
+
+#[async_trait]
+impl Service for ObjectStore {
+    async fn put(&mut self, name: &str, value: &[u8]) -> Result<()> {
+        validate_object_name(name);
+        let fault = self.enter("put", name).await?;
+        {
+            let mut s = self.shared.lock().unwrap();
+            let now = s.clock;
+            s.objects.insert(name.to_string(), (now, value.to_vec()));
+        }
+        self.finish("put", name, true, fault, ())
+    }
+
+    async fn get(&mut self, name: &str) -> Result<Option<Vec<u8>>> {
+        validate_object_name(name);
+        let fault = self.enter("get", name).await?;
+        let v = {
+            let s = self.shared.lock().unwrap();
+            s.objects.get(name).map(|(_, v)| v.clone())
+        };
+        self.finish("get", name, v.is_some(), fault, v)
+    }
+
+    async fn del(&mut self, name: &str) -> Result<()> {
+        validate_object_name(name);
+        let fault = self.enter("del", name).await?;
+        let existed = {
+            let mut s = self.shared.lock().unwrap();
+            s.objects.remove(name).is_some()
+        };
+        self.finish("del", name, existed, fault, ())
+    }
+
+    async fn list<'a>(&'a mut self, prefix: &'a str) -> Box<dyn AsyncObjectIterator + Send + 'a> {
+        validate_object_name(prefix);
+        Box::new(ListIter {
+            store: self.clone(),
+            prefix: prefix.to_string(),
+            last: None,
+            buf: VecDeque::new(),
+            done: false,
+        })
+    }
+
+    async fn compare_and_swap(
+        &mut self,
+        name: &str,
+        existing_value: Option<Vec<u8>>,
+        new_value: Vec<u8>,
+    ) -> Result<bool> {
+        validate_object_name(name);
+        let fault = self.enter("cas", name).await?;
+        let swapped = {
+            let mut s = self.shared.lock().unwrap();
+            if s.objects.get(name).map(|(_, v)| v) == existing_value.as_ref() {
+                let now = s.clock;
+                s.objects.insert(name.to_string(), (now, new_value));
+                true
+            } else {
+                false
+            }
+        };
+        self.finish("cas", name, swapped, fault, swapped)
+    }
+}
+
+/// Pages are fetched lazily, each one from the state of the store at the moment it is
+/// requested, continuing after the last key already returned.
+struct ListIter {
+    store: ObjectStore,
+    prefix: String,
+    last: Option<String>,
+    buf: VecDeque<ObjectInfo>,
+    done: bool,
+}
+
+#[async_trait]
+impl AsyncObjectIterator for ListIter {
+    async fn next(&mut self) -> Option<Result<ObjectInfo>> {
+        if self.buf.is_empty() && !self.done {
+            let fault = match self.store.enter("list", &self.prefix).await {
+                Ok(f) => f,
+                Err(e) => {
+                    self.done = true;
+                    return Some(Err(e));
+                }
+            };
+            let (page, more) = {
+                let s = self.store.shared.lock().unwrap();
+                let mut page = Vec::new();
+                let mut more = false;
+                for (k, (t, _)) in s.objects.range(self.prefix.clone()..) {
+                    if !k.starts_with(&self.prefix) {
+                        break;
+                    }
+                    if let Some(last) = &self.last {
+                        if k <= last {
+                            continue;
+                        }
+                    }
+                    if page.len() == s.page_size {
+                        more = true;
+                        break;
+                    }
+                    page.push(ObjectInfo {
+                        name: k.clone(),
+                        creation: *t,
+                    });
+                }
+                (page, more)
+            };
+            if let Some(l) = page.last() {
+                self.last = Some(l.name.clone());
+            }
+            self.done = !more;
+            let n = page.len();
+            if let Err(e) = self.store.finish("list", &self.prefix, n > 0, fault, ()) {
+                self.done = true;
+                return Some(Err(e));
+            }
+            self.buf.extend(page);
+        }
+        self.buf.pop_front().map(Ok)
+    }
+}
+
+/// The key derivation and envelope of `encryption.rs`, with explicit secret, salt and version.
+#[derive(Clone)]
+pub struct Cryptor(encryption::Cryptor);
+
+impl Cryptor {
+    pub fn new(salt: &[u8], secret: &[u8]) -> Result<Cryptor> {
+        Ok(Cryptor(encryption::Cryptor::new(
+            salt,
+            &encryption::Secret(secret.to_vec()),
+        )?))
+    }
+
+    pub fn seal(&self, version_id: VersionId, payload: Vec<u8>) -> Result<Vec<u8>> {
+        Ok(self
+            .0
+            .seal(encryption::Unsealed {
+                version_id,
+                payload,
+            })?
+            .into())
+    }
+
+    pub fn unseal(&self, version_id: VersionId, sealed: Vec<u8>) -> Result<Vec<u8>> {
+        Ok(self
+            .0
+            .unseal(encryption::Sealed {
+                version_id,
+                payload: sealed,
+            })?
+            .into())
+    }
+}
+
+/// The object-store server over the in-memory store, with an explicit cleanup entry point.
+pub struct CloudHandle(CloudServer<ObjectStore>);
+
+/// Construct the object-store server over `store`, re-using an already derived key. The
+/// probabilistic cleanup after `add_version` is off unless `set_cleanup_probability` is called.
+pub fn cloud_server(store: ObjectStore, cryptor: &Cryptor) -> CloudHandle {
+    CloudHandle(CloudServer::verif_new(store, cryptor.0.clone()))
+}
+
+impl CloudHandle {
+    pub async fn cleanup(&mut self) -> Result<()> {
+        self.0.verif_cleanup().await
+    }
+
+    /// The probability (0..=255) that `add_version` is followed by a cleanup.
+    pub fn set_cleanup_probability(&mut self, probability: u8) {
+        self.0.verif_set_cleanup_probability(probability)
+    }
+}
+
+#[async_trait(?Send)]
+impl Server for CloudHandle {
+    async fn add_version(
+        &mut self,
+        parent_version_id: VersionId,
+        history_segment: HistorySegment,
+    ) -> Result<(AddVersionResult, SnapshotUrgency)> {
+        self.0.add_version(parent_version_id, history_segment).await
+    }
+
+    async fn get_child_version(
+        &mut self,
+        parent_version_id: VersionId,
+    ) -> Result<GetVersionResult> {
+        self.0.get_child_version(parent_version_id).await
+    }
+
+    async fn add_snapshot(&mut self, version_id: VersionId, snapshot: Snapshot) -> Result<()> {
+        self.0.add_snapshot(version_id, snapshot).await
+    }
+
+    async fn get_snapshot(&mut self) -> Result<Option<(VersionId, Snapshot)>> {
+        self.0.get_snapshot().await
+    }
+}
+
+thread_local! {
+    static DRAWS: RefCell<(VecDeque<u8>, Option<u8>)> = const { RefCell::new((VecDeque::new(), None)) };
+}
+
+/// Replace the random draws of the object-store server on this thread: `queue` is consumed
+/// first, then `default` is used; with neither, draws are random as usual.
+pub fn set_draws(queue: Vec<u8>, default: Option<u8>) {
+    DRAWS.with(|d| *d.borrow_mut() = (queue.into(), default));
+}
+
+pub(in crate::server) fn next_draw() -> Option<u8> {
+    DRAWS.with(|d| {
+        let mut d = d.borrow_mut();
+        d.0.pop_front().or(d.1)
+    })
+}
